@@ -543,9 +543,9 @@ _dcg_contract(
     [],
     {"flipped-reversed": f"all(glyph.log_pens[k].reverseFlipped for k in {_NEWPENS})"},
 )
-# (2) all options symbolic; this is the summary every call site is checked against: `reverseFlipped` must be true there
+# (2) `#options`: all options symbolic; this is the summary every call site is checked against (callers map to it with `calls=`): `reverseFlipped` must be true there
 _dcg_contract(
-    None,
+    "options",
     {"glyph": Ref("C01_Glyph"), "glyphSet": Ref("C01_GlyphSet"), "skipMissing": BOOL, "reverseFlipped": BOOL, "include": Opt(Set(STR)), "decomposeNested": BOOL},
     ["reverseFlipped"],
     {},
@@ -564,8 +564,12 @@ _FILTER_POST = {
     "flipped-reversed": f"all(glyph.log_pens[k].reverseFlipped and glyph.log_pens[k].glyphSet == self.context.glyphSet and glyph.log_pens[k].outPen.glyph == glyph for k in {_NEWPENS})",
 }
 
+_DCG_CALLS = {"ufo2ft.util:decomposeCompositeGlyph": "ufo2ft.util:decomposeCompositeGlyph#options"}
+
 contract(
     "ufo2ft.filters.decomposeComponents:DecomposeComponentsFilter.filter",
+    name="c01",
+    calls=_DCG_CALLS,
     props=["C01", "C15"],
     params={"self": Ref("C01_Filter"), "glyph": Ref("C01_Glyph")},
     returns=BOOL,
@@ -584,6 +588,8 @@ contract(
 
 contract(
     "ufo2ft.filters.skipExportGlyphs:SkipExportGlyphsFilter.filter",
+    name="c01",
+    calls=_DCG_CALLS,
     props=["C01", "C15"],
     params={"self": Ref("C01_Filter"), "glyph": Ref("C01_Glyph")},
     returns=BOOL,
